@@ -340,6 +340,47 @@ def r15_6_recorded_path(ctx):
     ctx.require_min("R15.6", 50)
 
 
+_ENUM_REASON = "named constant of the public API, created once at import by design; its import-time frames are not a user line and the mapper infers the line from the expression that uses it (checked by hand: `int OptIn` is attributed to the line of the comparison it stands in)"
+MODULE_LEVEL_EXPR_OK = {
+    ("pyteal.ast.opup", "ON_CALL_APP"): "the constant approval program of the OpUp inner call; it has no user source line, attribution to opup.py is the intended one",
+    **{("pyteal.ast.app", f"OnComplete.{k}"): _ENUM_REASON for k in ("NoOp", "OptIn", "CloseOut", "ClearState", "UpdateApplication", "DeleteApplication")},
+    **{("pyteal.ast.txn", f"TxnType.{k}"): _ENUM_REASON for k in ("Unknown", "Payment", "KeyRegistration", "AssetConfig", "AssetTransfer", "AssetFreeze", "ApplicationCall")},
+}
+
+
+def r15_8_no_shared_expression_objects(ctx):
+    ctx.rule("R15.8", "an expression is attributed to the place where it was created, so expression objects are created where they are used: the inventory of module-level and class-level expression instances (objects shared between call sites, whose creation frames are not a user line) is closed: the constant OpUp program and the OnComplete / TxnType named constants, each with its reason")
+    exprs = {c.name for c in ctx.model.iter_classes() if any(k.name == "Expr" for k in ctx.model.mro(c))}
+    factories = set()
+    for f in ctx.model.iter_funcs():
+        if f.cls is None and f.module.name.startswith("pyteal.ast") and f.node.returns is not None and "<locals>" not in f.qualname:
+            r = u(f.node.returns).replace(chr(39), '').replace(chr(34), '').split('.')[-1]
+            if r in exprs or r == "Expr":
+                factories.add(f.name)
+    n = 0
+    for mod in ctx.model.modules.values():
+        if mod.name.endswith("_test") or not mod.name.startswith("pyteal"):
+            continue
+        scopes = [("", mod.tree.body)] + [(c.name + ".", c.body) for c in mod.tree.body if isinstance(c, ast.ClassDef)]
+        for prefix, body in scopes:
+            for st in body:
+                if not (isinstance(st, (ast.Assign, ast.AnnAssign)) and st.value is not None):
+                    continue
+                n += 1
+                made = sorted({u(c.func).split(".")[-1] for c in ast.walk(st.value) if isinstance(c, ast.Call) and u(c.func).split(".")[-1] in (exprs | factories) and not any(isinstance(a, (ast.Lambda, ast.FunctionDef)) for a in q.ancestors(c) if a is not st)})
+                if not made:
+                    continue
+                tgt = prefix + (u(st.targets[0]) if isinstance(st, ast.Assign) else u(st.target))
+                key = (mod.name, tgt)
+                if key in MODULE_LEVEL_EXPR_OK:
+                    ctx.ok("R15.8", f"{mod.name}:{tgt}", {"reason": MODULE_LEVEL_EXPR_OK[key]}, f"{mod.rel}:{st.lineno}")
+                else:
+                    ctx.bad("R15.8", f"{mod.name}:{tgt}", f"`{u(st)[:80]}` creates {made} once, when the module is imported: every use of the shared object is attributed to this line instead of the user's source line", f"{mod.rel}:{st.lineno}")
+    ctx.instances["R15.8"] = ctx.instances.get("R15.8", 0) + n
+    q.need(n > 300, f"only {n} module/class-level assignments scanned")
+    ctx.rule_text_suffix = None
+
+
 def run(ctx):
     r15_4_vlq(ctx)
     r15_5_r3_json(ctx)
@@ -347,6 +388,10 @@ def run(ctx):
     r15_2_validators(ctx)
     r15_3_one_item_per_line(ctx)
     r15_6_recorded_path(ctx)
+    r15_8_no_shared_expression_objects(ctx)
+    from rules.lowering_sem import r15_7_relowering
+
+    r15_7_relowering(ctx)
     from rules import c12 as _c12
 
     _c12.r12_1_sites(ctx)  # ops rewritten by the constants pass stay attributed to their own expression, one op object per site (shared with C12)
